@@ -315,6 +315,16 @@ func (p *Policy) sanitize(r io.Reader, w io.Writer) error {
 				}
 			}
 
+			// This element is kept. If an element of the same name was dropped
+			// and is still open, remember the kept one too (marked with "+"),
+			// so that its end tag is not mistaken for the dropped one's.
+			if skipClosingTag {
+				top := closingTagToSkipStack[len(closingTagToSkipStack)-1]
+				if top == token.Data || top == "+"+token.Data {
+					closingTagToSkipStack = append(closingTagToSkipStack, "+"+token.Data)
+				}
+			}
+
 			if !skipElementContent {
 				if _, err := buff.WriteString(token.String()); err != nil {
 					return err
@@ -338,7 +348,11 @@ func (p *Policy) sanitize(r io.Reader, w io.Writer) error {
 				}
 			}
 
-			if skipClosingTag && closingTagToSkipStack[len(closingTagToSkipStack)-1] == token.Data {
+			if skipClosingTag && closingTagToSkipStack[len(closingTagToSkipStack)-1] == "+"+token.Data {
+				// the end tag of a kept element nested in a dropped one of the
+				// same name: forget the marker and treat the tag normally
+				closingTagToSkipStack = closingTagToSkipStack[:len(closingTagToSkipStack)-1]
+			} else if skipClosingTag && closingTagToSkipStack[len(closingTagToSkipStack)-1] == token.Data {
 				closingTagToSkipStack = closingTagToSkipStack[:len(closingTagToSkipStack)-1]
 				if len(closingTagToSkipStack) == 0 {
 					skipClosingTag = false
